@@ -599,16 +599,18 @@ func runCodec(e *vlib.Env, res *vlib.Result, kind string, gen func(r *vlib.Rand)
 		if v.std {
 			// KNOWN DEFECT of the unchanged tree (reported, not judged; see gogoschema.go): the deprecated marshaler encodes a
 			// google.golang.org/protobuf message with gogo's struct-tag reflection, which knows neither the unknown-field store nor the
-			// extension store of such a message and drops the sign of a -0 scalar - unless gogo fails (oneof in use) and Marshal falls
-			// back to ProtoMarshaler. When the payload is exactly the encoding of v without these parts, the value is counted and skipped.
-			if v.pst.unknownNodes > 0 || v.pst.extensions > 0 {
+			// extension store of such a message nor proto3 `optional` (a present but empty bytes field is skipped) - unless gogo fails
+			// (oneof in use) and Marshal falls back to ProtoMarshaler. When the payload is exactly the encoding of v without these parts,
+			// the value is counted and skipped.
+			carries := v.pst.unknownNodes > 0 || v.pst.extensions > 0
+			if carries {
 				nStdUnk++
 			}
 			if stdMarshalLossy(v.v.(proto.Message), msg.Payload) {
 				nStdLossy++
 				continue
 			}
-			if v.pst.unknownNodes > 0 || v.pst.extensions > 0 {
+			if carries {
 				nStdUnkKept++
 			}
 		}
@@ -684,7 +686,7 @@ func runCodec(e *vlib.Env, res *vlib.Result, kind string, gen func(r *vlib.Rand)
 		res.NonTrivial = res.Failed() || (res.NonTrivial && nUnkTop > 0 && nUnkNested > 0 && pst.oneofArm > 0 && pst.oneofUnset > 0 && pst.presentZero > 0)
 	}
 	if strings.Contains(kind, "gogo") {
-		res.Count("gogo_std_values_unknown_extension_fields_or_negative_zero_lost_in_gogo_marshal_KNOWN_DEFECT_not_judged", nStdLossy)
+		res.Count("gogo_std_values_unknown_extension_or_empty_optional_bytes_fields_lost_in_gogo_marshal_KNOWN_DEFECT_not_judged", nStdLossy)
 	}
 	res.Sig = vlib.Sig(kind, sigParts)
 	if !res.Failed() {
